@@ -924,6 +924,39 @@ pub fn dyn_replay(args: &[String]) {
 	out.summary(json!({"configs": rows.len()}));
 }
 
+/// `yv result-replay <rows.ndjson>` — MC_Result rows on the real IndicatorResult
+pub fn result_replay(args: &[String]) {
+	use yata::core::{Action, ValueType};
+	let rows = read_lines(&args[0]);
+	let mut out = Sink::new();
+	let vals: Vec<ValueType> = (0..8).map(|i| 1.5 + i as ValueType).collect();
+	let sigs: Vec<Action> = (0..8).map(|i| if i % 2 == 0 { Action::Buy(10 + i as u8) } else { Action::Sell(20 + i as u8) }).collect();
+	for r in &rows {
+		let (nv, ns) = (r["nv"].as_u64().unwrap() as usize, r["ns"].as_u64().unwrap() as usize);
+		let (vl, sl) = (r["vlen"].as_u64().unwrap() as usize, r["slen"].as_u64().unwrap() as usize);
+		let got = catch(|| {
+			let res = IndicatorResult::new(&vals[..nv], &sigs[..ns]);
+			json!({"size": [res.size().0, res.size().1], "vlen": res.values_length(), "slen": res.signals_length(),
+				"values": res.values().iter().map(|x| *x as f64).collect::<Vec<_>>(),
+				"signals": res.signals().iter().map(|a| crate::action::code(*a)).collect::<Vec<_>>(),
+				"value_i": (0..vl).map(|i| res.value(i) as f64).collect::<Vec<_>>(),
+				"signal_i": (0..sl).map(|i| crate::action::code(res.signal(i))).collect::<Vec<_>>()})
+		});
+		let exp = json!({"size": [vl, sl], "vlen": vl, "slen": sl,
+			"values": vals[..vl].iter().map(|x| *x as f64).collect::<Vec<_>>(),
+			"signals": sigs[..sl].iter().map(|a| crate::action::code(*a)).collect::<Vec<_>>(),
+			"value_i": vals[..vl].iter().map(|x| *x as f64).collect::<Vec<_>>(),
+			"signal_i": sigs[..sl].iter().map(|a| crate::action::code(*a)).collect::<Vec<_>>()});
+		out.checked += 1;
+		match got {
+			Ok(g) if g == exp => {}
+			Ok(g) => out.mismatch("IndicatorResult:new:value", json!({"nv": nv, "ns": ns, "expected": exp, "actual": g})),
+			Err(e) => out.mismatch("IndicatorResult:new:panic", json!({"nv": nv, "ns": ns, "msg": e})),
+		}
+	}
+	out.summary(json!({"rows": rows.len()}));
+}
+
 /// class of a panic message (the site inside the crate that gave up)
 fn panic_class(msg: &str) -> &'static str {
 	if msg.contains("PeriodType overflow") {
